@@ -533,8 +533,17 @@ func ensureHTMLSafeLoginDestination(loginDestination string) string {
 	if err != nil {
 		return profilePath
 	}
+	// Re-serialising can turn an escaped slash into a real one
+	// ("/%2Fhost " becomes "//host%20"): what comes out must still be a
+	// path on this server, the page's scripts navigate to it.
+	serialised := parsedLoginDestination.String()
+	if !strings.HasPrefix(serialised, "/") ||
+		strings.HasPrefix(serialised, "//") ||
+		strings.HasPrefix(serialised, "/\\") {
+		return profilePath
+	}
 	// The result is concatenated into a quoted attribute value.
-	return htmltemplate.HTMLEscapeString(parsedLoginDestination.String())
+	return htmltemplate.HTMLEscapeString(serialised)
 
 }
 
